@@ -847,3 +847,12 @@ Section Final.
     cbn [map] in Hby. injection Hby as H1 H2. destruct Hr as [Hr|Hr]; [subst; exact H1|apply IH; assumption].
   Qed.
 End Final.
+
+(* an operation that does not report an error has run all its steps: what was acknowledged is in the database *)
+Lemma success_means_applied : forall op l cleanup m k,
+  cs_reports_error true true op l k = false -> cs_outcome k l cleanup m = cs_run l m.
+Proof.
+  intros op l cleanup m k H. unfold cs_reports_error, cs_outcome in *.
+  destruct (Nat.leb (length l) k); [reflexivity|].
+  destruct (nth_error l k) as [st|]; [destruct st|]; destruct op; discriminate.
+Qed.
